@@ -137,8 +137,16 @@ def main(run):
                     continue
                 except Exception as ex:
                     run.ok(kind="raised")
+                    if any(ev[0] == "fault" for ev in sc.clock.log):
+                        # the injected callback fault surfaced as ANOTHER exception: that is C17's subject (the same exception
+                        # propagates), not a statement about efficiency; the stream is abandoned
+                        run.other_error("C17:exception-not-propagated")
+                        break
                     run.violation("explain-raises", f"cfg#{i} step {t}: explain_one raised {type(ex).__name__}: {ex} on a legal configuration",
                                   {"cfg": cfg, "seed": seed, "step": t, "kwargs": kw})
+                    break
+                if any(ev[0] == "fault" for ev in log):
+                    run.other_error("C17:exception-swallowed")      # a callback raised and explain_one returned normally: C17's subject
                     break
                 hist.append((x, y, kw))
                 replay = {"cfg": cfg, "seed": seed, "step": t, "kwargs": kw}
